@@ -112,6 +112,14 @@ def random_scenarios(rng, n, histories=True, domain=False, nmax=24):
             for s in range(rng.randint(1, 4)):
                 arrays = mutate_step(rng, arrays, dim, L, hch, nextid)
                 steps.append(dict(arrays=arrays))
+        if unit < 0.25 and any(
+                len(set((x, y, z) for a in st['arrays'] for x, y, z in
+                        zip(a['x'], a['y'], a['z']))) <= 1 for st in steps):
+            # all particles at one point: NNPS falls back to a box of unit
+            # size whatever h is, and the algorithms with dense cell tables
+            # (StratifiedSFCNNPS) then need memory ~ (1/h)^3 (22 GB here);
+            # that is outside the resources the check runs with
+            unit, origin = 0.25, 0.0
         sc = dict(id='r%d' % k, dim=dim, rs=rng.choice([2, 2, 2, 3, 1]),
                   unit=unit, origin=origin, steps=steps)
         if domain and rng.random() < 0.7:
